@@ -146,7 +146,7 @@ package util
 //@ ensures !result.inBytes && result.slice == asBytes(runes) && !result.trimLengthKnown && result.trimLength == 0 && result.Index == 0
 
 //@ func ToChars
-//@ requires len(bytes) < 2147483648
+//@ requires len(bytes) < 2305843009213693952
 //@ ensures len(result.slice) == rcount(bytes)
 //@ use @"if inBytes" rc_ascii(bytes, len(bytes), len(bytes))
 //@ use @"runes := make" rc_ascii(bytes, bytesUntil, bytesUntil)
